@@ -3,6 +3,7 @@
 From Coq Require Import List Arith Bool Lia.
 Import ListNotations.
 From Verif.C10 Require Import Model.
+Local Notation idc := (fun s0 : state => s0).
 
 (* ---------------------------------------------------------------------------------------------- *)
 (* framing: nothing executed by a job reads the job queue; jobs only append to it *)
@@ -111,10 +112,10 @@ Lemma f_elem_fn q c i b a s : elem_fn T c i b a (pre q s) = pre q (elem_fn T c i
 Proof. unfold elem_fn. frame. Qed.
 Hint Rewrite f_elem_fn : fr.
 
-Lemma f_exec_act q a s : exec_act T (pre q s) a = pre q (exec_act T s a).
+Lemma f_exec_act q a s : exec_act T idc (pre q s) a = pre q (exec_act T idc s a).
 Proof. unfold exec_act. frame. Qed.
 
-Lemma f_exec_acts q l s : fold_left (exec_act T) l (pre q s) = pre q (fold_left (exec_act T) l s).
+Lemma f_exec_acts q l s : fold_left (exec_act T idc) l (pre q s) = pre q (fold_left (exec_act T idc) l s).
 Proof. revert s. induction l; simpl; intros; auto. rewrite f_exec_act. apply IHl. Qed.
 Hint Rewrite f_exec_acts : fr.
 
@@ -146,10 +147,10 @@ Proof.
 Qed.
 Hint Rewrite f_async_step : fr.
 
-Lemma f_exec_finally q sc ful arg cap s : exec_finally T sc ful arg cap (pre q s) = pre q (exec_finally T sc ful arg cap s).
+Lemma f_exec_finally q sc ful arg cap s : exec_finally T idc sc ful arg cap (pre q s) = pre q (exec_finally T idc sc ful arg cap s).
 Proof.
   unfold exec_finally. cbv beta zeta. autorewrite with fr.
-  set (s1 := fold_left (exec_act T) (s_acts sc) (set_log (log s ++ [(s_id sc, VUndef)]) s)).
+  set (s1 := fold_left (exec_act T idc) (s_acts sc) (set_log (log s ++ [(s_id sc, VUndef)]) s)).
   assert (K : forall v, (let '(np, s0) := promise_resolve T v (pre q s1) in
                          let '(d, dcap, s2) := new_cap_int s0 in
                          cres T cap (VProm d) (perform_then np (if ful then HThunkVal arg else HThunkThrow arg) HNone (Some dcap) s2))
@@ -162,7 +163,7 @@ Proof.
 Qed.
 Hint Rewrite f_exec_finally : fr.
 
-Lemma f_exec_job q j s : exec_job T j (pre q s) = pre q (exec_job T j s).
+Lemma f_exec_job q j s : exec_job T idc j (pre q s) = pre q (exec_job T idc j s).
 Proof.
   unfold exec_job, new_pair_for, new_cap_int. cbv beta iota zeta. frame.
 Qed.
@@ -179,7 +180,8 @@ Proof. unfold drop_all. autorewrite with fr. rewrite jids_app. destruct s; refle
 (* goja's leave() = FIFO drain of (rest of the current batch ++ jobQueue) *)
 Lemma leaveI_drainS : forall fuel jobs s, leaveI T fuel jobs s = drainS T fuel (pre jobs s).
 Proof.
-  induction fuel; intros jobs s; cbn [leaveI drainS].
+  unfold leaveI. induction fuel; intros jobs s; cbn [leaveI_gen drainS];
+    try change (leave_nested true (leaveI_gen T true fuel [])) with (fun s0 : state => s0).
   - rewrite g_queue. destruct jobs as [|j rest]; cbn [app].
     + destruct (queue s) eqn:E.
       * rewrite pre_nil. reflexivity.
